@@ -171,6 +171,64 @@ def gen_dataset(rng, target="binary", n=None, kinds=None, with_dev=None):
     return ds
 
 
+def gen_crafted(rng, target="binary"):
+    """boundary constructor: one feature whose modalities have *exactly chosen* sizes and target rates on the train sample
+    and on a dev sample - exact rate ties between adjacent and between non-adjacent modalities, non-monotone rates, dev
+    rates that tie where the train rates do not, sizes exactly at / just below min_freq_mod - plus missing values"""
+    k = rng.randint(3, 6)
+    kind = rng.choice(["ord", "disc", "cat"])
+    levels = ORD_LEVELS[:k] if kind == "ord" else ([float(i) for i in range(k)] if kind == "disc" else CATS[:k])
+    unit = rng.choice([10, 20])
+    grid = [1, 2, 3, 5, 5, 6, 8] if target == "binary" else [1, 2, 3, 5, 5, 6, 8]
+
+    def sample(rates, sizes, nan_size, nan_rate):
+        vals, ys = [], []
+        for lv, r, sz in list(zip(levels, rates, sizes)) + ([(None, nan_rate, nan_size)] if nan_size else []):
+            n1 = sz * r // 10
+            for j in range(sz):
+                vals.append(lv)
+                if target == "binary":
+                    ys.append(1 if j < n1 else 0)
+                else:
+                    ys.append(r + (1 if j < sz // 2 else -1) * (j % 2))       # mean r (exactly when sz is a multiple of 4), ties in y
+        order = list(range(len(vals))); rng.shuffle(order)
+        return [vals[i] for i in order], [ys[i] for i in order]
+
+    rates = [rng.choice(grid) for _ in levels]
+    sizes = [unit * rng.choice([1, 1, 2, 3, 4]) for _ in levels]
+    nan_size = unit * rng.choice([0, 0, 1, 2])
+    nan_rate = rng.choice(grid)
+    v, yv = sample(rates, sizes, nan_size, nan_rate)
+    with_dev = rng.random() < 0.6
+    name = {"ord": "or0", "disc": "qd0", "cat": "ca0"}[kind]
+
+    def frame(vals):
+        X = pd.DataFrame({name: pd.Series(vals, dtype=object if kind != "disc" else float)})
+        X.index = _index(rng, len(vals))
+        X["extra_col"] = list(range(len(vals)))
+        return X
+    X = frame(v)
+    y = pd.Series(yv, index=X.index, name="target")
+    X_dev = y_dev = None
+    if with_dev:
+        drates = list(rates)
+        for _ in range(rng.choice([0, 1, 1, 2])):
+            i, j = rng.randrange(k), rng.randrange(k)
+            drates[i] = drates[j]                                  # a tie on dev (adjacent or not) that train may not have
+        if rng.random() < 0.3:
+            i = rng.randrange(k); drates[i] = rng.choice(grid)     # possibly another ranking on dev
+        dsizes = [unit * rng.choice([1, 1, 2, 3, 4]) for _ in levels] if rng.random() < 0.5 else list(sizes)
+        dv, dyv = sample(drates, dsizes, nan_size if rng.random() < 0.7 else 0, rng.choice([nan_rate, rng.choice(grid)]))
+        X_dev = frame(dv)
+        y_dev = pd.Series(dyv, index=X_dev.index, name="target")
+    ds = dict(X=X, y=y, X_dev=X_dev, y_dev=y_dev,
+              quantitative=[name] if kind == "disc" else [], qualitative=[name] if kind == "cat" else [],
+              ordinal=[name] if kind == "ord" else [], values_orders={name: list(levels)} if kind == "ord" else {},
+              target=target, kinds=["crafted-" + kind])
+    ds["ok_target"] = _target_ok(ds)
+    return ds
+
+
 def _target_ok(ds):
     y = ds["y"]
     u = set(y.unique())
